@@ -45,18 +45,34 @@ Fixpoint tiers_verdict (s : ipsets) (tiers : list mtier) (p : packet) : verdict 
                end
   end.
 
-(* normal (filter-table) endpoint chains, and the forward chains of host endpoints *)
+(* raw (untracked) and mangle (pre-DNAT) chains of host endpoints: no end-of-tier default (policy of the filter
+   table may still apply), no profiles *)
+Definition to_tier_nodefault (t : mtier) : tier :=
+  {| t_policies := map to_policy (flat_map g_pols (mt_groups t)); t_default := DefaultPass |}.
+Fixpoint tiers_verdict_nodefault (s : ipsets) (tiers : list mtier) (p : packet) : verdict :=
+  match tiers with
+  | [] => VNoMatch
+  | t :: ts => match tier_verdict s (to_tier_nodefault t) p with
+               | VAllow => VAllow | VDeny => VDeny
+               | VPass | VNoMatch => tiers_verdict_nodefault s ts p
+               end
+  end.
+
+(* normal (filter-table) endpoint chains, the forward chains of host endpoints, raw and pre-DNAT chains *)
 Definition expected (ec : ecfg) (s : ipsets) (tiers : list mtier) (profiles : list mprofile) (p : packet) : expectation :=
   if negb (ec_admin_up ec) then ExpDeny
-  else if ct_in p [CtRelated; CtEstablished] then ExpCtAllow
-  else if ec_ct_invalid ec && ct_in p [CtInvalid] then ExpDeny
+  else if negb (is_untracked ec) && ct_in p [CtRelated; CtEstablished] then ExpCtAllow
+  else if negb (is_untracked ec) && ec_ct_invalid ec && ct_in p [CtInvalid] then ExpDeny
   else if encap_blocked ec p then ExpDeny
   else match ec_type ec with
        | TForward =>
            (* forwarded traffic is allowed when no applyOnForward policy applies; otherwise the tiers decide *)
            if is_nil tiers then ExpAllow
            else match tiers_verdict s tiers p with VAllow => ExpAllow | VDeny => ExpDeny | _ => ExpNoVerdict end
-       | _ =>
+       | TUntracked | TPreDNAT =>
+           (* allow: (NOTRACK and) RETURN with the accept mark; deny: drop; nothing decided: on to the filter table *)
+           match tiers_verdict_nodefault s tiers p with VAllow => ExpAllow | VDeny => ExpDeny | _ => ExpNoVerdict end
+       | TNormal =>
            match ref_verdict s tiers profiles p with
            | VAllow => ExpAllow
            | _ => ExpDeny
